@@ -69,6 +69,7 @@ def _config(draw, costs_strategy, tier, **bkw):
         "exclude_last": draw(st.booleans()),
         "padding": draw(st.sampled_from([-1, -100, 0, 7])),
         "entry": draw(st.sampled_from(["function", "module"])),
+        "layout": draw(st.sampled_from(G.LAYOUTS)),
     }
 
 
@@ -91,7 +92,7 @@ def _nontrivial(b, rl, hl, costs):
 
 def _distance_check(case, exact):
     b = case["b"]
-    ref, hyp = G.to_tensors(b, case["batch_first"])
+    ref, hyp = G.to_tensors(b, case["batch_first"], case.get("layout", "contiguous"))
     got = _call_edit_distance(case, ref, hyp, case["entry"])
     require(tuple(got.shape) == (b["N"],), "edit_distance result shape", tuple(got.shape), (b["N"],))
     got = got.tolist()
@@ -102,6 +103,7 @@ def _distance_check(case, exact):
         require(_tol_eq(got[n], exp, exact), "edit distance of pair %d (ref=%s hyp=%s)" % (n, r, h), got[n], exp)
     nt, cl = _nontrivial(b, rl, hl, case["costs"])
     cl.append("entry_" + case["entry"])
+    cl.append("layout_" + case.get("layout", "contiguous"))
     if case["norm"]:
         cl.append("norm")
     return Info(nontrivial=nt, classes=cl)
@@ -124,7 +126,7 @@ def _dist_nondyadic(case):
 def _prefix_check(case, exact):
     b = case["b"]
     N, H = b["N"], b["H"]
-    ref, hyp = G.to_tensors(b, case["batch_first"])
+    ref, hyp = G.to_tensors(b, case["batch_first"], case.get("layout", "contiguous"))
     got = _call_prefix(case, ref, hyp, case["entry"])
     rows = H if case["exclude_last"] else H + 1
     exp_shape = (N, rows) if case["batch_first"] else (rows, N)
@@ -156,6 +158,7 @@ def _prefix_check(case, exact):
     if case["exclude_last"]:
         cl.append("exclude_last")
     cl.append("entry_" + case["entry"])
+    cl.append("layout_" + case.get("layout", "contiguous"))
     return Info(nontrivial=nt, classes=cl)
 
 
